@@ -547,12 +547,18 @@ fn handle_need(
                                     WHERE actor_id = :actor_id
                                       AND :version BETWEEN start AND end
                             ) AS in_gaps,
-                            EXISTS(
+                            (EXISTS(
                                 SELECT 1
                                 FROM __corro_buffered_changes
                                     WHERE site_id = :actor_id
                                       AND db_version = :version
-                            ) AS buffered",
+                            ) OR EXISTS(
+                                -- a buffered range may carry no rows at all
+                                SELECT 1
+                                FROM __corro_seq_bookkeeping
+                                    WHERE site_id = :actor_id
+                                      AND db_version = :version
+                            )) AS buffered",
                         )?
                         .query_row(
                             named_params! {
@@ -689,12 +695,18 @@ fn handle_need(
                                     WHERE actor_id = :actor_id
                                       AND :version BETWEEN start AND end
                             ) AS in_gaps,
-                            EXISTS(
+                            (EXISTS(
                                 SELECT 1
                                 FROM __corro_buffered_changes
                                     WHERE site_id = :actor_id
                                       AND db_version = :version
-                            ) AS buffered",
+                            ) OR EXISTS(
+                                -- a buffered range may carry no rows at all
+                                SELECT 1
+                                FROM __corro_seq_bookkeeping
+                                    WHERE site_id = :actor_id
+                                      AND db_version = :version
+                            )) AS buffered",
                         )?
                         .query_row(
                             named_params! {
